@@ -561,6 +561,52 @@ Proof.
     + destruct (IH from) as [H|H]; [left; exact H|right; right; exact H].
 Qed.
 
+(* [before] is a strict order with negatively transitive complement (positions:
+   lexicographic order on (line, column)) *)
+Hypothesis before_asym : forall a b, before a b = true -> before b a = false.
+Hypothesis before_ntrans : forall y s n, before y s = false -> before n s = true -> before y n = false.
+
+Lemma before_irrefl a : before a a = false.
+Proof. destruct (before a a) eqn:E; [|reflexivity]. pose proof (before_asym _ _ E). congruence. Qed.
+
+Lemma fold_min : forall ks s seen,
+  (forall y, In y seen -> before y s = false) ->
+  forall y, In y (seen ++ s :: ks) ->
+    before y (fold_left (fun start n => if before n start then n else start) ks s) = false.
+Proof.
+  induction ks as [|n ks IH]; intros s seen Hseen y Hy; cbn [fold_left].
+  - apply in_app_or in Hy. destruct Hy as [Hy|[<-|[]]]; [now apply Hseen|apply before_irrefl].
+  - destruct (before n s) eqn:E.
+    + apply (IH n (seen ++ [s])).
+      * intros z Hz. apply in_app_or in Hz. destruct Hz as [Hz|[<-|[]]].
+        -- eapply before_ntrans; [apply Hseen; exact Hz|exact E].
+        -- now apply before_asym.
+      * rewrite <- app_assoc. cbn. apply in_app_or in Hy. apply in_or_app.
+        destruct Hy as [Hy|[<-|[<-|Hy]]]; [now left|right; now left|right; right; now left|right; right; now right].
+    + apply (IH s (seen ++ [n])).
+      * intros z Hz. apply in_app_or in Hz. destruct Hz as [Hz|[<-|[]]]; [now apply Hseen|exact E].
+      * rewrite <- app_assoc. cbn. apply in_app_or in Hy. apply in_or_app.
+        destruct Hy as [Hy|[<-|[<-|Hy]]]; [now left|right; right; now left|right; now left|right; right; now right].
+Qed.
+
+Lemma pick_start_min (E : emap) from y :
+  In y (from :: map fst E) -> before y (pick_start E from) = false.
+Proof. intros H. unfold Dfs.pick_start. apply (fold_min (map fst E) from []); [intros ? []|exact H]. Qed.
+
+Lemma eget_key (E : emap) k v : eget E k = Some v -> In k (map fst E).
+Proof.
+  induction E as [|[k' v'] E IH]; cbn; [discriminate|].
+  destruct (eqb_spec k k') as [->|N]; [now left|]. intros H. right. now apply IH.
+Qed.
+
+Lemma consec_src {A} (P : A -> A -> Prop) l x : consec P (l ++ [x]) -> forall p, In p l -> exists c, P p c.
+Proof.
+  induction l as [|a l IH]; intros H p Hp; [contradiction|].
+  destruct l as [|b l]; cbn in H.
+  - destruct Hp as [<-|[]]. exists x. tauto.
+  - destruct H as [H1 H2]. destruct Hp as [<-|Hp]; [eauto|]. now apply IH.
+Qed.
+
 (* what the rule prints: a closed walk x -> ... -> x along edges, without
    repetition except for the end points, inside the vertex set *)
 Definition is_cycle (c : list V) : Prop :=
@@ -590,7 +636,8 @@ Qed.
 
 Lemma report_spec (st : sts) fr a b :
   Inv st (fr ++ [a]) -> In b (fr ++ [a]) -> fa st a b ->
-  exists c, report eqb succ before (S (length vs)) st (a, b) = Done (hd a c, c) /\ is_cycle c.
+  exists c, report eqb succ before (S (length vs)) st (a, b) = Done (hd a c, c) /\ is_cycle c /\
+            forall y, In y c -> before y (hd a c) = false.
 Proof.
   intros I Hb Hab.
   destruct (split_stack fr a b Hb) as [below [mid [Hsplit Hmid]]].
@@ -653,6 +700,7 @@ Proof.
   destruct (in_split _ _ Hstart) as [l1 [l2 Hl]].
   assert (Hhd : b = hd start l1).
   { subst cyc. destruct l1; cbn in Hl |- *; congruence. }
+  pose proof Hnext as Hnext0.
   rewrite Hl, Hhd in Hnext, Hedges.
   apply consec_rotate in Hnext. apply consec_rotate in Hedges.
   assert (Hnd' : NoDup (start :: l2 ++ l1)).
@@ -660,7 +708,15 @@ Proof.
     etransitivity; [apply Permutation_app_comm|]. cbn. apply perm_skip. apply Permutation_refl. }
   assert (Hlen' : S (length (l2 ++ l1)) <= length vs).
   { rewrite Hl in Hlen. rewrite app_length in *. cbn in Hlen. lia. }
-  exists (start :: (l2 ++ l1) ++ [start]). split.
+  assert (Hincl : forall z, In z (start :: (l2 ++ l1) ++ [start]) -> In z cyc).
+  { intros z Hz. rewrite Hl.
+    cbn in Hz. destruct Hz as [<-|Hz]; [apply in_or_app; right; now left|].
+    rewrite <- app_assoc in Hz. apply in_app_or in Hz. destruct Hz as [Hz|Hz].
+    + apply in_or_app. right. now right.
+    + apply in_app_or in Hz. destruct Hz as [Hz|[<-|[]]].
+      * apply in_or_app. now left.
+      * apply in_or_app. right. now left. }
+  exists (start :: (l2 ++ l1) ++ [start]). split; [|split].
   - unfold report. rewrite Hcol. fold start. cbn [hd].
     destruct (l2 ++ l1) as [|t R] eqn:ER.
     + cbn in Hnext. destruct Hnext as [Hn _]. unfold enext in Hn. rewrite Hn.
@@ -669,13 +725,9 @@ Proof.
       rewrite (print_walk E' start R t); [reflexivity|exact Hn2| |cbn in Hlen'; lia].
       inversion Hnd'; assumption.
   - exists start, (l2 ++ l1). split; [reflexivity|]. split; [exact Hedges|]. split; [exact Hnd'|].
-    intros z Hz. apply Hvs. rewrite Hl.
-    cbn in Hz. destruct Hz as [<-|Hz]; [apply in_or_app; right; now left|].
-    rewrite <- app_assoc in Hz. apply in_app_or in Hz. destruct Hz as [Hz|Hz].
-    + apply in_or_app. right. now right.
-    + apply in_app_or in Hz. destruct Hz as [Hz|[<-|[]]].
-      * apply in_or_app. now left.
-      * apply in_or_app. right. now left.
+    intros z Hz. apply Hvs. now apply Hincl.
+  - cbn [hd]. intros y Hy. apply Hincl in Hy. unfold start. apply pick_start_min. right.
+    destruct (consec_src _ _ _ Hnext0 y Hy) as [c Hc]. eapply eget_key. exact Hc.
 Qed.
 
 (* ---- the whole search ------------------------------------------------------------------ *)
@@ -683,7 +735,7 @@ Qed.
 Definition detect_post (r : res (option (V * list V))) : Prop :=
   match r with
   | Done None => forall u, In u vs -> ~ path u u
-  | Done (Some (start, c)) => is_cycle c /\ hd start c = start
+  | Done (Some (start, c)) => is_cycle c /\ hd start c = start /\ forall y, In y c -> before y start = false
   | _ => False
   end.
 
@@ -695,8 +747,8 @@ Proof.
   pose proof (detect_first_init (S (length vs)) ord (fun v H => proj1 (Hord v) H) ltac:(lia)) as Hf.
   destruct (detect_first (S (length vs)) ord (fun _ => SNew)) as [| |[[[a b]|] st']]; cbn in Hf; try contradiction.
   - destruct Hf as [fr [I [Hb Hab]]].
-    destruct (report_spec st' fr a b I Hb Hab) as [c [Hr Hc]].
-    rewrite Hr. cbn. split; [exact Hc|].
+    destruct (report_spec st' fr a b I Hb Hab) as [c [Hr [Hc Hmin]]].
+    rewrite Hr. cbn. split; [exact Hc|]. split; [|exact Hmin].
     destruct Hc as [x [r [-> _]]]. reflexivity.
   - cbn. eapply first_post_nocycle; [|exact Hf]. intros v Hv. now apply Hord.
 Qed.
